@@ -202,14 +202,21 @@ class SeqEngine(object):
 
     def run(self):
         res = self.res
+        cwd = None
         try:
             self.world = W.World(self.prog)
+            if self.world.knobs.get("chdir"):
+                # identifiers that are relative paths of existing files (C18): run inside the sandbox
+                cwd = os.getcwd()
+                os.chdir(self.world.sandbox)
             self._run()
         except (seam.SimCrash, seam.SimAbort) as e:  # not expected in SEQ
             res.harness_error = "unexpected %r" % (e,)
         except Exception:
             res.harness_error = traceback.format_exc()
         finally:
+            if cwd is not None:
+                os.chdir(cwd)
             if self.world is not None:
                 res.events = self.world.run.seq
                 res.digest = self.world.run.digest()
@@ -228,7 +235,13 @@ class SeqEngine(object):
                 self.prologue(self)
                 if res.violations:
                     return
-            w.open_store()
+            try:
+                w.open_store()
+            except Exception as e:
+                # creating a store with a valid configuration must succeed
+                self.violation({"C14"}, "config", "config:create-failed:%s" % type(e).__name__,
+                               {"cfg": w.cfg, "error": str(e)[:300]}, -1)
+                return
             mdl = self.model = w.model()
             if self.use_monitor:
                 from . import hooks as H
